@@ -637,12 +637,14 @@ class DiffXWriter(object):
         elif isinstance(content, bytes):
             newline = newline.encode(newline_encoding)
 
-        # Encode the content and newline in the specified encoding.
+        # Encode the content and newline in the specified encoding. If
+        # there's no encoding in effect at all (a DiffX file without a main
+        # encoding), only plain ASCII can be written.
         if isinstance(newline, str):
-            newline = newline.encode(encoding)
+            newline = newline.encode(newline_encoding)
 
         if isinstance(content, str):
-            content = content.encode(encoding)
+            content = content.encode(newline_encoding)
 
         # Remove the newline's BOM, if needed (depending on the encoding)
         # so that we can safely append it to lines when splitting.
